@@ -458,6 +458,85 @@ pub fn e2e_case_scoped(k: usize, d: &Desc, mode: u8, gap_ms: u64, scope: u8) -> 
     }
 }
 
+/// A running watcher (sync or tokio) hears one hand-made response that advertises an instance
+/// of its service, in a shape a real responder may use: records as answers; with the question
+/// it answers echoed in front (RFC 6762 section 6: questions in responses are ignored, not the
+/// response); with two questions; address record in the additional section; a non-zero id.
+/// The instance must come to be listed exactly as advertised.
+pub fn raw_announcement_case(k: usize, variant: u8, asynchronous: bool) -> Result<Vec<Finding>, String> {
+    use crate::refmodel::packet::*;
+    use crate::refmodel::schema::Val;
+    use crate::refmodel::RefName;
+    use std::time::{Duration, Instant};
+    let svc = format!("_raw{}v{}{}._tcp.local", k, variant, if asynchronous { "t" } else { "s" });
+    let case = json!({"kind": "raw-announcement", "k": k, "variant": variant, "async": asynchronous});
+    let inst = RefName::txt(&format!("rawpeer.{}", svc));
+    let svcn = RefName::txt(&svc);
+    let datagram = {
+        let mut p = RefPacket { id: if variant == 4 { 0x4d2 } else { 0 }, flags: F_QR | F_AA, ..Default::default() };
+        if variant == 1 || variant == 2 {
+            p.questions.push(RefQ { name: inst.clone(), qtype: 33, qclass: 1, unicast: false });
+        }
+        if variant == 2 {
+            p.questions.push(RefQ { name: svcn.clone(), qtype: 12, qclass: 1, unicast: false });
+        }
+        p.answers.push(RefRR { name: svcn.clone(), class: 1, cache_flush: false, ttl: 120, rdata: typed(12, vec![Val::Name(inst.clone())]) });
+        p.answers.push(RefRR { name: inst.clone(), class: 1, cache_flush: true, ttl: 120, rdata: typed(33, vec![Val::U16(0), Val::U16(0), Val::U16(8123), Val::Name(inst.clone())]) });
+        p.answers.push(RefRR { name: inst.clone(), class: 1, cache_flush: true, ttl: 120, rdata: typed(16, vec![Val::Strs(vec![crate::refmodel::B(b"k=v".to_vec())])]) });
+        let a = RefRR { name: inst.clone(), class: 1, cache_flush: true, ttl: 120, rdata: typed(1, vec![Val::U32(0x0a070809)]) };
+        if variant == 3 {
+            p.additional.push(a);
+        } else {
+            p.answers.push(a);
+        }
+        if variant % 2 == 0 {
+            p.encode(0)
+        } else {
+            p.encode_compressed(0, true)
+        }
+    };
+    let want = Desc { name: "rawpeer".to_string(), ips: ["10.7.8.9".to_string()].into_iter().collect(), ports: [8123u16].into_iter().collect(), attrs: [("k".to_string(), Some("v".to_string()))].into_iter().collect() };
+    let rt = tokio::runtime::Builder::new_multi_thread().worker_threads(2).enable_all().build().map_err(|e| format!("{}", e))?;
+    let r = guarded(|| -> Result<Vec<(String, String)>, String> {
+        let me = Desc { name: format!("watcher{}", k), ips: ["10.8.8.7".to_string()].into_iter().collect(), ports: [7300u16].into_iter().collect(), attrs: BTreeMap::new() };
+        enum W {
+            S(simple_mdns::sync_discovery::ServiceDiscovery),
+            A(simple_mdns::async_discovery::ServiceDiscovery),
+        }
+        let w = if asynchronous {
+            W::A(rt.block_on(async { simple_mdns::async_discovery::ServiceDiscovery::new(me.to_instance(), &svc, 120) }).map_err(|e| format!("{:?}", e))?)
+        } else {
+            W::S(simple_mdns::sync_discovery::ServiceDiscovery::new(me.to_instance(), &svc, 120).map_err(|e| format!("{:?}", e))?)
+        };
+        std::thread::sleep(Duration::from_millis(200));
+        let tx = std::net::UdpSocket::bind((std::net::Ipv4Addr::UNSPECIFIED, 0)).map_err(|e| format!("{}", e))?;
+        let _ = tx.set_multicast_loop_v4(true);
+        let mut got: Vec<Desc> = Vec::new();
+        for _attempt in 0..2 {
+            tx.send_to(&datagram, (std::net::Ipv4Addr::new(224, 0, 0, 251), 5353)).map_err(|e| format!("{}", e))?;
+            let deadline = Instant::now() + Duration::from_millis(900);
+            while Instant::now() < deadline {
+                let set = match &w {
+                    W::S(s) => s.get_known_services(),
+                    W::A(a) => rt.block_on(a.get_known_services()),
+                };
+                got = set.iter().map(Desc::of).collect();
+                if got == vec![want.clone()] {
+                    return Ok(vec![]);
+                }
+                std::thread::sleep(Duration::from_millis(40));
+            }
+        }
+        Ok(vec![(if got.is_empty() { "raw-announcement-not-reported".to_string() } else { "raw-announcement-differs".to_string() }, format!("a response advertising {:?} (variant {}: {}) was sent twice to a running {} watcher, which lists {:?}", want, variant, ["records as answers", "the answered question echoed in front", "two questions in front", "address record in the additional section", "a non-zero id"][variant as usize % 5], if asynchronous { "tokio" } else { "sync" }, got))])
+    });
+    rt.shutdown_timeout(Duration::from_millis(100));
+    match r {
+        Err(pn) => Ok(vec![finding(format!("C15|raw-announcement|{}", pn.sig()), format!("{:?}", pn), case)]),
+        Ok(Err(e)) => Err(e),
+        Ok(Ok(bad)) => Ok(bad.into_iter().map(|(t, x)| finding(format!("C15|{}|{}", t, if asynchronous { "tokio" } else { "sync" }), x, case.clone())).collect()),
+    }
+}
+
 /// A watcher built with a discovery channel that the application reads late (tokio: a bounded
 /// channel of capacity 1 left unread while two peers join; sync: an unbounded channel, or one
 /// whose receiver is dropped): once the application catches up, both peers are known exactly
@@ -738,6 +817,27 @@ pub fn run(ctx: &Ctx) {
             ctx.set_extra("e2e_scopes", json!({"ipv6_multicast_probe": v6, "ipv4_multicast_interface": crate::engine::multicast_interface_v4().map(|a| a.to_string()), "cases": scoped_ran}));
             ctx.space("end to end under other network scopes: NetworkScope::V6 on both sides (sync/sync, tokio/tokio, sync peer with tokio watcher) when an IPv6 multicast probe succeeds; NetworkScope::V4WithInterface(<interface multicast leaves through>) on both sides and on the watcher only", scoped_ran, "complete for the listed cases");
         }
+        // hand-made responses in the shapes a real responder may use, to sync and tokio watchers (side by side)
+        if env_ok && why_not.is_none() {
+            let jobs: Vec<(u8, bool)> = (0..5u8).flat_map(|v| [(v, false), (v, true)]).collect();
+            let results: Vec<Result<Vec<Finding>, String>> = std::thread::scope(|s| {
+                let hs: Vec<_> = jobs.iter().map(|(v, a)| s.spawn(move || raw_announcement_case(80, *v, *a))).collect();
+                hs.into_iter().map(|h| h.join().unwrap_or_else(|_| Err("thread panicked".to_string()))).collect()
+            });
+            let mut raw_ran = 0u64;
+            for r in results {
+                if let Ok(f) = r {
+                    raw_ran += 1;
+                    ran += 1;
+                    t.evals += 1;
+                    t.nontrivial += 1;
+                    t.transitions += 1;
+                    t.outcome(if f.is_empty() { "e2e-faithful" } else { "e2e-unfaithful" });
+                    ctx.violations(f);
+                }
+            }
+            ctx.space("hand-made responses to running sync and tokio watchers: an instance advertised with its records as answers, with the answered question echoed in front, with two questions in front, with the address record in the additional section, with a non-zero id (plain and compressed encodings): listed exactly as advertised", raw_ran, "complete for the ten cases");
+        }
         // discovery channels read late (three variants, different service names, side by side)
         let mut chan_ran = 0u64;
         if env_ok && why_not.is_none() {
@@ -841,6 +941,7 @@ pub fn replay(case: &Value) -> Vec<Finding> {
             Ok(ev) => check_history(&ev),
             Err(e) => vec![finding("C15|replay-unreadable", format!("{}", e), case.clone())],
         },
+        "raw-announcement" => raw_announcement_case(case["k"].as_u64().unwrap_or(0) as usize + 500, case["variant"].as_u64().unwrap_or(0) as u8, case["async"].as_bool().unwrap_or(false)).unwrap_or_default(),
         "e2e-channel" => e2e_channel_case(case["k"].as_u64().unwrap_or(0) as usize + 500, case["variant"].as_u64().unwrap_or(0) as u8).unwrap_or_default(),
         "e2e" => match serde_json::from_value::<Desc>(case["desc"].clone()) {
             Ok(d) => e2e_case_scoped(case["k"].as_u64().unwrap_or(0) as usize + 500, &d, case["mode"].as_u64().unwrap_or(0) as u8, case["gap_ms"].as_u64().unwrap_or(120), case["scope"].as_u64().unwrap_or(0) as u8).unwrap_or_default(),
